@@ -642,9 +642,11 @@ func TestC19Binary(t *testing.T) {
 				want = append(want, key(rp))
 			}
 			wsSend(ws, &hagallpb.ReceiptRequest{Type: TReceiptReq, Timestamp: timestamppb.Now(), RequestId: uint32(100 + i), Receipt: rp.Receipt, Hash: rp.Hash, Signature: rp.Signature})
-			if _, ok := wsUntil(ws, TReceiptResp, 5*time.Second); !ok {
+			if _, st := wsAwait(ws, 5*time.Second, TReceiptResp); st == "inconclusive" {
+				rt.Skip("server too slow: inconclusive")
+			} else if st != "got" {
 				col.Violations++
-				rt.Fatalf("C19 violated: receipt %d (%s) was not answered with RECEIPT_RESPONSE", i, class)
+				rt.Fatalf("C19 violated: receipt %d (%s) was not answered with RECEIPT_RESPONSE (%s)", i, class, st)
 			}
 		}
 		sentinel := validTriple(fmt.Sprintf("sentinel-%d", run))
@@ -686,7 +688,17 @@ func TestC19Binary(t *testing.T) {
 				rt.Skip("sentinel did not arrive in time and the server is slow: inconclusive")
 			}
 		}
-		time.Sleep(80 * time.Millisecond)
+		// the forwards run concurrently: earlier ones may land after the sentinel (bounded wait that
+		// ends as soon as they are all there), duplicates would follow shortly
+		for until := time.Now().Add(15 * time.Second); time.Now().Before(until); time.Sleep(5 * time.Millisecond) {
+			p.mu.Lock()
+			n := len(p.receipts[start:])
+			p.mu.Unlock()
+			if n >= len(want)+1 {
+				break
+			}
+		}
+		time.Sleep(100 * time.Millisecond)
 		var got []string
 		p.mu.Lock()
 		for _, r := range p.receipts[start:] {
